@@ -45,6 +45,8 @@ pub struct SatModel {
   pub lost: Ranges,
   /// sats destroyed by duplicate txids
   pub destroyed: Ranges,
+  /// outpoints that a duplicate txid created a second time while the first was unspent
+  pub recreated: std::collections::BTreeSet<OutPoint>,
   /// number of blocks processed (= next height)
   pub blocks: u32,
 }
@@ -78,6 +80,7 @@ impl SatModel {
       if let Some(old) = self.utxo.insert(op, ranges) {
         // duplicate txid: the displaced output and its sats are gone
         self.destroyed.extend(old);
+        self.recreated.insert(op);
       }
       self
         .meta
